@@ -106,6 +106,24 @@ def run_reverse(spec, rec):
         used = i % 2 == 1
         wit = {"potential": kind, "natoms": len(atoms), "omega_dt": wdt, "dt_fs": dt_fs, "steps": steps, "apply_constraints": appl, "T": T, "integrator": "used before, state restored from outside" if used else "fresh"}
         try:
+            # forward sensitivity of the trajectory (how much a 1e-9 perturbation grows): rounding errors
+            # injected on the way are amplified by at most about this factor on the way back
+            # (measured on two copies with integrator objects of their own, so that it does not depend on the
+            # object under test or on its history)
+            def clone():
+                t = atoms.copy()
+                t.calc = atoms.calc.__class__.__new__(atoms.calc.__class__)
+                t.calc.__dict__.update({k: v for k, v in atoms.calc.__dict__.items() if k not in ("atoms", "results")})
+                t.calc.atoms, t.calc.results = None, {}
+                t.set_momenta(p0.copy(), apply_constraint=False)
+                return t
+
+            twin, twin0 = clone(), clone()
+            eps = 1e-9
+            twin.positions += eps * rng.normal(size=x0.shape)
+            Verlet(dt=dt_fs, max_steps=steps, apply_constraints=appl).integrate(make_ctx(twin, 1))
+            Verlet(dt=dt_fs, max_steps=steps, apply_constraints=appl).integrate(make_ctx(twin0, 1))
+            amp = max(1.0, float(np.abs(twin.get_positions() - twin0.get_positions()).max() / eps))
             if used:
                 integ.integrate(ctx)
                 if i % 4 == 1:
@@ -114,18 +132,8 @@ def run_reverse(spec, rec):
                     atoms.set_positions(x0.copy(), apply_constraint=False)
                 atoms.set_momenta(p0.copy(), apply_constraint=False)
                 rec.count("reversibility_runs_with_used_integrator")
-            # forward sensitivity of the trajectory (how much a 1e-9 perturbation grows): rounding errors
-            # injected on the way are amplified by at most about this factor on the way back
-            twin = atoms.copy()
-            twin.calc = atoms.calc.__class__.__new__(atoms.calc.__class__)
-            twin.calc.__dict__.update({k: v for k, v in atoms.calc.__dict__.items() if k not in ("atoms", "results")})
-            twin.calc.atoms, twin.calc.results = None, {}
-            eps = 1e-9
-            twin.positions += eps * rng.normal(size=x0.shape)
-            integ.integrate(make_ctx(twin, 1))
             integ.integrate(ctx)
             x1 = atoms.get_positions()
-            amp = max(1.0, float(np.abs(twin.get_positions() - x1).max() / eps))
             atoms.set_momenta(-atoms.get_momenta())
             integ.integrate(ctx)
         except Exception as ex:  # noqa: BLE001
